@@ -102,7 +102,7 @@ func sectionSyntaxIndicator(psi []byte) bool {
 
 // sectionLength returns the length of a single psi section
 func sectionLength(psi []byte) uint16 {
-	return uint16(psi[1]&3)<<8 | uint16(psi[2])
+	return uint16(psi[1]&0x0F)<<8 | uint16(psi[2])
 }
 
 // NewPointerField will return a new pointer field with stuffing as raw bytes.
@@ -129,7 +129,7 @@ func TableHeaderFromBytes(data []byte) (TableHeader, error) {
 	th.TableID = data[0]
 	th.SectionSyntaxIndicator = data[1]&0x80 != 0
 	th.PrivateIndicator = data[1]&0x40 != 0
-	th.SectionLength = uint16(data[1]&0x03 /* 0000 0011 */)<<8 | uint16(data[2])
+	th.SectionLength = uint16(data[1]&0x0F /* 0000 1111 */)<<8 | uint16(data[2])
 
 	return th, nil
 }
